@@ -1,0 +1,159 @@
+//go:build verif
+
+package objecttree
+
+// Verification seams (build tag `verif` only; add-only file, nothing here is compiled into normal builds).
+// They expose, read-only, a few unexported pieces of the tree core to the external correspondence
+// harness, and let it build the testable (non-verifying) object tree with caller-chosen change ids.
+
+import (
+	"context"
+	"sort"
+	"sync/atomic"
+
+	anystore "github.com/anyproto/any-store"
+
+	"github.com/anyproto/any-sync/commonspace/headsync/headstorage"
+	"github.com/anyproto/any-sync/commonspace/object/acl/list"
+	"github.com/anyproto/any-sync/commonspace/object/tree/treechangeproto"
+	"github.com/anyproto/any-sync/util/crypto"
+)
+
+// VerifIdGen chooses the id of a locally built change (instead of its CID).
+type VerifIdGen func(content BuilderContent) string
+
+type verifChangeBuilder struct {
+	ChangeBuilder
+	idGen VerifIdGen
+}
+
+func (b *verifChangeBuilder) Build(payload BuilderContent) (ch *Change, raw *treechangeproto.RawTreeChangeWithId, err error) {
+	ch, raw, err = b.ChangeBuilder.Build(payload)
+	if err != nil || b.idGen == nil {
+		return
+	}
+	id := b.idGen(payload)
+	ch.Id = id
+	raw.Id = id
+	return
+}
+
+func verifNonVerifiable(root *treechangeproto.RawTreeChangeWithId) ChangeBuilder {
+	return &nonVerifiableChangeBuilder{ChangeBuilder: NewChangeBuilder(newMockKeyStorage(), root)}
+}
+
+// VerifBuildTree is BuildTestableTree (non-verifying builder, no-op validator, default flusher)
+// whose locally created changes get their id from idGen.
+func VerifBuildTree(storage Storage, aclList list.AclList, idGen VerifIdGen) (ObjectTree, error) {
+	root, err := storage.Root(context.Background())
+	if err != nil {
+		return nil, err
+	}
+	cb := &verifChangeBuilder{ChangeBuilder: verifNonVerifiable(root.RawTreeChangeWithId()), idGen: idGen}
+	return buildObjectTree(objectTreeDeps{
+		changeBuilder: cb,
+		treeBuilder:   newTreeBuilder(storage, cb),
+		storage:       storage,
+		validator:     &noOpTreeValidator{},
+		aclList:       aclList,
+		flusher:       &defaultFlusher{},
+	})
+}
+
+// VerifCreateStorage creates the tree storage for a mock root (as MockChangeCreator.CreateNewTreeStorage does).
+func VerifCreateStorage(ctx context.Context, root *treechangeproto.RawTreeChangeWithId, store anystore.DB) (Storage, error) {
+	StorageChangeBuilder = func(keys crypto.KeyStorage, rootChange *treechangeproto.RawTreeChangeWithId) ChangeBuilder {
+		return verifNonVerifiable(rootChange)
+	}
+	hs, err := headstorage.New(ctx, store)
+	if err != nil {
+		return nil, err
+	}
+	st, err := CreateStorage(ctx, root, hs, store)
+	if err != nil {
+		return nil, err
+	}
+	initTestAddSeq(st)
+	return st, nil
+}
+
+// VerifOpenStorage reopens an existing tree storage.
+func VerifOpenStorage(ctx context.Context, id string, store anystore.DB) (Storage, error) {
+	hs, err := headstorage.New(ctx, store)
+	if err != nil {
+		return nil, err
+	}
+	st, err := NewStorage(ctx, id, hs, store)
+	if err != nil {
+		return nil, err
+	}
+	if s, ok := st.(*storage); ok {
+		s.SetAddSeq(&atomic.Uint64{})
+	}
+	return st, nil
+}
+
+// VerifTree returns the in-memory DAG of an object tree.
+func VerifTree(ot any) *Tree {
+	switch t := ot.(type) {
+	case *objectTree:
+		return t.tree
+	case *historyTree:
+		return t.tree
+	}
+	return nil
+}
+
+func (t *Tree) VerifLastIteratedHeadId() string { return t.lastIteratedHeadId }
+
+func (t *Tree) VerifAttachedIds() []string {
+	res := make([]string, 0, len(t.attached))
+	for id := range t.attached {
+		res = append(res, id)
+	}
+	sort.Strings(res)
+	return res
+}
+
+func (t *Tree) VerifUnattachedLen() int { return len(t.unAttached) }
+
+func (t *Tree) VerifPossibleRoots() int { return len(t.possibleRoots) }
+
+func (t *Tree) VerifReduce() bool { return t.reduceTree() }
+
+func VerifCommonSnapshotForTwoPaths(ourPath, theirPath []string) (string, error) {
+	return commonSnapshotForTwoPaths(ourPath, theirPath)
+}
+
+// VerifBuildHistoryTree is BuildNonVerifiableHistoryTree with the mock key storage of the testable tree.
+func VerifBuildHistoryTree(params HistoryTreeParams) (HistoryTree, error) {
+	rootChange, err := params.Storage.Root(context.Background())
+	if err != nil {
+		return nil, err
+	}
+	cb := verifNonVerifiable(rootChange.RawTreeChangeWithId())
+	return buildHistoryTree(objectTreeDeps{
+		changeBuilder: cb,
+		treeBuilder:   newTreeBuilder(params.Storage, cb),
+		storage:       params.Storage,
+		validator:     &noOpTreeValidator{},
+		aclList:       params.AclList,
+		flusher:       &defaultFlusher{},
+	}, params)
+}
+
+// VerifWaitList returns the wait list as (awaited id, waiting id) pairs, keys sorted, waiters in insertion order.
+func (t *Tree) VerifWaitList() [][2]string {
+	keys := make([]string, 0, len(t.waitList))
+	for k := range t.waitList {
+		keys = append(keys, k)
+	}
+	sort.Strings(keys)
+	var res [][2]string
+	for _, k := range keys {
+		for _, w := range t.waitList[k] {
+			res = append(res, [2]string{k, w})
+		}
+	}
+	return res
+}
